@@ -167,8 +167,10 @@ CondN == ChN(1, <<Sp(<<O2a>>), Const, Sp(<<O2, M22f>>)>>, TRUE, FALSE, 0, 1)   \
 MultiC == Ch(2, <<Sp(<<M22f>>), Const, Sp(<<O2>>)>>, TRUE, FALSE)             \* multi-choice over conditional spaces
 MultiS == ChN(2, <<Sp(<<O2>>), Const, Sp(<<O2, O2>>)>>, FALSE, TRUE, 0, 1)
 FlA == FlN(0, 10, 3)
-ViewDP == {O2, O2a, O3i, O2f, M23, M23n, M23i, M23s, M22f, M22fs, M22n, Deep, DeepM, CondM, CondN, MultiC, MultiS}
-ViewPair == {O2a, O3i, M23n, M22fs, Deep, CondN, MultiC, M23i}
+Deep3 == Ch(1, <<Const, Sp(<<Deep>>)>>, TRUE, FALSE)                          \* conditional chain of depth 3
+Deep3M == Ch(1, <<Const, Sp(<<CondM>>), Sp(<<Deep, O2>>)>>, TRUE, FALSE)       \* ... ending in a multi-choice / a pair
+ViewDP == {O2, O2a, O3i, O2f, M23, M23n, M23i, M23s, M22f, M22fs, M22n, Deep, DeepM, CondM, CondN, MultiC, MultiS, Deep3, Deep3M}
+ViewPair == {O2a, O3i, M23n, M22fs, Deep, CondN, MultiC, M23i, Deep3}
 ViewInf == {FlA, Cu, F01, Ch(1, <<Sp(<<F01>>), Const>>, TRUE, FALSE), Ch(2, <<Sp(<<F01>>), Const, Sp(<<Cu>>)>>, TRUE, FALSE)}
 OkView(S) == { s \in WF(S) : UniqueNames(s) /\ (Size(s) = INF \/ Size(s) <= MaxSize) }
 U_views_quick == OkView(
